@@ -76,6 +76,17 @@ CHECKS['C18'] = ('aliasing',
   'Trusts: TLC; names are only assigned where the property promises isolation (families of deep copies) and through a molecule or its atom views.', 'DESIGN 3 C18')
 ENGINES['aliasing'] = ('harness/drivers/aliasing.py', 'Aliasing.tla + MC_Aliasing.tla: exhaustive + simulated histories replayed with full state comparison')
 
+CHECKS['C07'] = ('moveatom',
+  'MoveAtom.tla: the bond-restoring traversal as a state machine (frontier, claimed, moved, exact bonds, traversal tree), Abs = any frontier order, Alg = LIFO stack; TLC checks MovedOnce/TreeExact/TraversalExact/NeverTwice for all labelled trees and small cyclic graphs x every root x every processing order; every enumerated case and random graphs up to 60 atoms are executed on the real move_mol_atom with a recording bond table and validated by TLC against the Abs layer (Trace_MoveAtom.tla)',
+  'Exhaustive: all labelled trees with <= 6 (thorough 7) atoms and all connected cyclic graphs with <= 4 (5) atoms, every moved atom, every order in which frontier edges can be processed. On the implementation each (graph, root) runs with generic coordinates, a random displacement (tiny to large), bond tables that agree or disagree with the geometry, ascending and permuted neighbour order: the moved atom is displaced by exactly the vector, the input array is intact, the output finite, each re-placed atom was on the frontier, the whole component was re-placed once, every bond (trees) / every traversal-tree bond (cycles) is exact to 1e-9 relative; random draws of find_atom_random_displ must be finite and perpendicular to the bond / line / plane of the first neighbours.',
+  'Trusts: TLC; the list of cases is written as a literal TLA+ set by the harness (Pruefer enumeration; cross-checked once against the kSubset enumeration of MC_MoveAtom.tla: 8 568 cases for the quick bounds); exactness of bonds measured with numpy norms.', 'DESIGN 3 C07')
+CHECKS['C08'] = ('chi2',
+  'Chi2.tla: reference definition as the set of admissible <<S, k>> (sum of squared distances, penalty exponent) under nearest-atom ties vs the implementation-shaped three code paths; TLC checks AlgInAbs, NonNegative, PathsAgree and invariance under lattice isometries / relabelling for every case; all cases with their exact <<S, k>> sets are evaluated on the real Chi2Calculator; 40x25-atom grid cases and generic floats validated as traces (Trace_Chi2.tla)',
+  'Exhaustive within bounds: fixed and mobile sequences of <= 3 lattice points with equidistant pairs, every restraint list of length <= 2 (thorough 3) including duplicated fixed atoms and all-fixed-restrained (91k cases quick). The real calculator is built with a different mobile array, evaluated on another configuration first and then twice on the case; the float must equal S h^2 1.1^k for an admissible pair (1e-12). Random sets on a 256-level grid keep TLC exact for 1..40 x 1..25 atoms with five restraint shapes and several evaluations per calculator; generic floats check rigid-motion, relabelling and restraint-count invariance.',
+  'Trusts: TLC; the decomposition value -> <<S, k>> candidates in the harness (1e-11); restraint indices in range.', 'DESIGN 3 C08')
+ENGINES['moveatom'] = ('harness/drivers/moveatom.py', 'MoveAtom.tla + generated MC_MoveAtomCases + Trace_MoveAtom.tla')
+ENGINES['chi2'] = ('harness/drivers/chi2.py', 'Chi2.tla + MC_Chi2.tla + Trace_Chi2.tla')
+
 PENDING_REASON = 'check not built yet in this round (build in progress; see DESIGN.md Appendix B)'
 
 
